@@ -75,6 +75,8 @@ class ReplayMonitor:
         if back.shape != wantm.shape or not np.all((back == wantm) | (np.isnan(back) & np.isnan(wantm))):
             ctx.violation("Engine.input_values getter does not return the matrix that was set", {"matrix": m}, wantm, back)
 
+    given: dict = {}  # id(engine) -> per-variable values the workload assigned for the next process()
+
     def _before(self, args, kwargs):
         engine = args[0]
         sizes = [int(np.size(v.value)) for v in engine.input_variables]
@@ -92,7 +94,14 @@ class ReplayMonitor:
         except Exception as ex:
             self.ctx.hit(f"inconclusive:engine cannot be deep-copied for the shadow replay ({type(ex).__name__})")
             return None
-        return {"shadow": shadow, "n": n, "inputs": [np.array(v.value, dtype=float, copy=True) for v in engine.input_variables]}
+        inputs = [np.array(v.value, dtype=float, copy=True) for v in engine.input_variables]
+        given = self.given.pop(id(engine), None)
+        if given is not None and len(given) == len(inputs):
+            # the workload tells which values it handed to each variable (before any clipping to a locked range, which the
+            # row-by-row assignment applies again): what one variable does to its own value must not reach another variable
+            inputs = [np.array(g, dtype=float, copy=True) for g in given]
+            self.ctx.hit("compare:inputs as the workload handed them over")
+        return {"shadow": shadow, "n": n, "inputs": inputs}
 
     def _after(self, args, kwargs, st, result, exc):
         ctx, fl, engine = self.ctx, self.fl, args[0]
@@ -116,6 +125,7 @@ class ReplayMonitor:
                 {
                     "values": [float(np.asarray(ov.value)) if np.size(ov.value) == 1 else ov.value for ov in shadow.output_variables],
                     "fuzzy": [[(a.term.name, float(np.asarray(a.degree))) for a in ov.fuzzy.terms] for ov in shadow.output_variables],
+                    "text": [str(np.asarray(ov.fuzzy_value()).ravel()[0]) for ov in shadow.output_variables],
                 }
             )
         if (exc is None) != (float_exc is None):
@@ -157,6 +167,9 @@ class ReplayMonitor:
                     return
                 for (name, d), act in zip(mine, theirs):
                     dd = np.asarray(act.degree, dtype=float).ravel()
+                    if dd.size not in (1, n):
+                        ctx.violation("an activated degree of the batch does not hold one value per row", dict(case, variable=ov.name, term=name), n, int(dd.size))
+                        return
                     g = float(dd[j] if dd.size > 1 else dd[0])
                     if act.term.name != name or not feq(g, d):
                         if act.term.name == name and abs(g - d) <= 1e-12:
@@ -164,6 +177,19 @@ class ReplayMonitor:
                             continue
                         ctx.violation("an activated degree of the batch differs from float mode", dict(case, variable=ov.name, row=j, term=name), d, g)
                         return
+            # the fuzzy output written out (OutputVariable.fuzzy_value): one text per row
+            try:
+                texts = [str(t) for t in np.asarray(ov.fuzzy_value()).ravel()]
+            except Exception as ex:
+                ctx.violation(f"fuzzy_value() raises {type(ex).__name__} after a batch that float mode handles", dict(case, variable=ov.name), "texts", repr(ex)[:200])
+                return
+            if len(texts) == 1 and n > 1:
+                texts = texts * n
+            ctx.hit("compare:fuzzy_value texts")
+            if len(texts) != n or any(texts[j] != per_row[j]["text"][k] for j in range(n)):
+                j = next((j for j in range(min(n, len(texts))) if texts[j] != per_row[j]["text"][k]), 0)
+                ctx.violation("the written fuzzy output (fuzzy_value) of the batch differs from float mode", dict(case, variable=ov.name, row=j, rows_expected=n, rows_got=len(texts)), per_row[j]["text"][k], texts[j] if j < len(texts) else None)
+                return
             if any(math.isnan(per_row[j]["values"][k]) for j in range(n)) or ov.lock_previous:
                 interesting = True
         # Engine.output_values must be readable whenever it is in float mode
@@ -271,6 +297,17 @@ def run(ctx):
                             v.value[:] = arr[:, k]  # the same array objects, refilled in place
                         way = "in-place refill"
                         ctx.hit("event:input arrays refilled in place")
+                    elif n > 1 and len(engine.input_variables) >= 2 and rnd.random() < 0.2:
+                        # two variables are handed windows of one recording (memory they share), the others their own arrays
+                        way = "shared buffer"
+                        buf = np.concatenate([arr[:, 0], arr[-1:, 1]])
+                        given = [buf[:-1].copy(), buf[1:].copy()] + [arr[:, k].copy() for k in range(2, arr.shape[1])]
+                        mon.given[id(engine)] = given
+                        engine.input_variables[0].value = buf[:-1]
+                        engine.input_variables[1].value = buf[1:]
+                        for k, v in enumerate(engine.input_variables[2:], start=2):
+                            v.value = arr[:, k]
+                        ctx.hit("event:input variables given views of one buffer")
                     elif way == "per-variable" or n == 1 and rnd.random() < 0.5:
                         for k, v in enumerate(engine.input_variables):
                             v.value = arr[:, k] if n > 1 else float(arr[0, k])
@@ -286,12 +323,28 @@ def run(ctx):
                 history.append({"way": way, "rows": rows[:4]})
             if i < 2:
                 ctx.sample("history", {"fll": describe(engine), "history": history, "outputs": [ov.value for ov in engine.output_variables]})
+        # a batch of several thousand rows (slicing / chunking fast paths) on a small engine
+        for i, rnd in ctx.cases("large batch", ctx.scale(1, 6)):
+            spec = E.gen_engine(rnd, activations=("General",), d=3, resolutions=[5, 10], max_inputs=2, max_rules=3, max_depth=1, free_weights=True, flags=False)
+            try:
+                engine = E.build(fl, spec)
+            except Exception:
+                continue
+            n = [4500, 4500, 9000, 17000, 33000, 5000][i % 6] if ctx.thorough else 4500
+            rows = batch_rows(rnd, spec, 40)
+            arr = np.array([rows[rnd.randrange(len(rows))] for _ in range(n)], dtype=float)
+            try:
+                engine.input_values = arr
+                engine.process()
+            except Exception as ex:
+                ctx.hit(f"event:large batch raised {type(ex).__name__}: {str(ex)[:80]}")
+            ctx.hit("workload:large batch")
         from . import c01
 
         c01.examples(ctx, fl)
         probe.report(ctx)
         reach.report(ctx)
-    ctx.require("workload:output variable mixing term families under an Automatic weighted defuzzifier")
+    ctx.require("workload:output variable mixing term families under an Automatic weighted defuzzifier", "workload:large batch", "event:input variables given views of one buffer", "compare:fuzzy_value texts", "compare:inputs as the workload handed them over")
     ctx.require("hook:Engine.process", "compare:batch vs float", "hook:Engine.input_values.setter", "input_values:2d", "input_values:1d", "input_values:0d", "compare:output_values readable", "batch_size:2-8")
     for d in E.INTEGRAL + ["WeightedAverage", "WeightedSum"]:
         ctx.require(f"defuzzifier:{d}")
